@@ -14,7 +14,9 @@ CONSTANTS
   Avails = {2}
   CapAts = {0, 1, 5}
   CapAts2 = {}
+  OverKinds = {"total"}
+  TouchCaps = {}
 VIEW View
 INVARIANTS InitLeSpare Nested Contents OwnerBytes Untouched
-PROPERTIES Frame WriteBack Refusal SliceReported
+PROPERTIES Frame WriteBack Refusal SliceReported RefusedCounts
 CHECK_DEADLOCK FALSE
